@@ -80,45 +80,55 @@ def buffer_part(chk, thorough, rng):
     chosen = []
     for i, t in enumerate(trs):
         interesting = t["from"]["pos"] in boundary or t["to"]["pos"] in boundary or t["res"] != "ok"
-        if thorough or (interesting and (i + SEED) % 24 == 0) or (i + SEED) % 900 == 0:
+        if thorough:
+            if (interesting and (i + SEED) % 2 == 0) or (i + SEED) % 60 == 0:
+                chosen.append(t)
+        elif (interesting and (i + SEED) % 24 == 0) or (i + SEED) % 900 == 0:
             chosen.append(t)
-    reqs, metas = [], []
-    for k, t in enumerate(chosen):
-        path = paths.get(graph.key(t["from"]))
-        if path is None:
-            raise ToolError("unreachable buffer state")
-        ops = to_real_ops(path + [t], k)
-        reqs.append({"op": "buffer", "data": True, "ops": [o for o, _ in ops]})
-        metas.append(ops)
-        chk.case(("buf", t["from"]["pos"], t["op"], t["arg"]))
-    obs = rs.run(reqs, timeout=1800)
-    rec = trace.Recorder("c17buf")
-    runs = []
-    for k, (o, ops) in enumerate(zip(obs, metas)):
-        a = rec.n
-        rec.emit(dict(ev="BufNew"))
-        if o.get("r") != "ok":
-            rec.emit(dict(ev="BufOp", op="crash", arg=0, x=0, res=str(o.get("r")), len=0, free=0, rle=[], bookmark=0))
-        else:
-            for st, (_, m) in zip(o["steps"], ops):
-                rec.emit(dict(ev="BufOp", op=m["op"], arg=m["arg"], x=m["x"], res=st["res"], len=st["len"], free=st["free"],
-                              rle=rle(st["data"]), bookmark=st.get("bookmark", 0) if st.get("bookmark", 0) < 2 ** 31 else -1))
-        runs.append((a, rec.n, chosen[k]))
-    rec.close()
-    print("  buffer: %d transitions replayed, %d events" % (len(runs), rec.n), flush=True)
     cfgp = sesscheck.write_cfg("SPECIFICATION TSpec\nCONSTANTS MAX = %d\nPOSTCONDITION TraceAccepted\nCHECK_DEADLOCK FALSE\n" % cap, "TraceBuffer.cfg")
-    v = trace.validate_parallel("TraceBuffer.tla", cfgp, rec.events, [(a, b) for a, b, _ in runs], k=12, name="c17buf")
-    for i, r in enumerate(v["results"]):
-        chk.add_tlc(r, "TraceBuffer#%d" % i)
-    chk.traces += len(runs)
-    ri = 0
-    for idx in v["fails"]:
-        while runs[ri][1] <= idx:
-            ri += 1
-        a, b, t = runs[ri]
-        ev = rec.events[idx]
-        chk.violation(dict(kind="buffer", op=ev["op"], res=ev["res"]), "Buffer %s(%s) from pos %d: observed res=%s len=%d free=%d" % (ev["op"], ev["arg"], t["from"]["pos"], ev["res"], ev["len"], ev["free"]),
-                      dict(kind="buffer", transition=t, events=rec.events[a:idx + 1][-4:]))
+    nev = 0
+    # in batches: each step of a replay carries the buffer's contents (run-length encoded), so a batch is replayed, judged and dropped
+    BATCH = 2500
+    for b0 in range(0, len(chosen), BATCH):
+        part = chosen[b0:b0 + BATCH]
+        reqs, metas = [], []
+        for k, t in enumerate(part):
+            path = paths.get(graph.key(t["from"]))
+            if path is None:
+                raise ToolError("unreachable buffer state")
+            ops = to_real_ops(path + [t], b0 + k)
+            reqs.append({"op": "buffer", "data": True, "ops": [o for o, _ in ops]})
+            metas.append(ops)
+            chk.case(("buf", t["from"]["pos"], t["op"], t["arg"]))
+        obs = rs.run(reqs, timeout=1800)
+        rec = trace.Recorder("c17buf")
+        runs = []
+        for k, (o, ops) in enumerate(zip(obs, metas)):
+            a = rec.n
+            rec.emit(dict(ev="BufNew"))
+            if o.get("r") != "ok":
+                rec.emit(dict(ev="BufOp", op="crash", arg=0, x=0, res=str(o.get("r")), len=0, free=0, rle=[], bookmark=0))
+            else:
+                for st, (_, m) in zip(o["steps"], ops):
+                    rec.emit(dict(ev="BufOp", op=m["op"], arg=m["arg"], x=m["x"], res=st["res"], len=st["len"], free=st["free"],
+                                  rle=rle(st["data"]), bookmark=st.get("bookmark", 0) if st.get("bookmark", 0) < 2 ** 31 else -1))
+            runs.append((a, rec.n, part[k]))
+        del obs
+        rec.close()
+        nev += rec.n
+        v = trace.validate_parallel("TraceBuffer.tla", cfgp, rec.events, [(a, b) for a, b, _ in runs], k=12, name="c17buf")
+        for i, r in enumerate(v["results"]):
+            chk.add_tlc(r, "TraceBuffer#%d.%d" % (b0 // BATCH, i))
+        chk.traces += len(runs)
+        ri = 0
+        for idx in v["fails"]:
+            while runs[ri][1] <= idx:
+                ri += 1
+            a, b, t = runs[ri]
+            ev = rec.events[idx]
+            chk.violation(dict(kind="buffer", op=ev["op"], res=ev["res"]), "Buffer %s(%s) from pos %d: observed res=%s len=%d free=%d" % (ev["op"], ev["arg"], t["from"]["pos"], ev["res"], ev["len"], ev["free"]),
+                          dict(kind="buffer", transition=t, events=rec.events[a:idx + 1][-4:]))
+    print("  buffer: %d transitions replayed, %d events" % (len(chosen), nev), flush=True)
     chk.sample(dict(kind="buffer-transition", transition=chosen[len(chosen) // 3]))
     return cap
 
